@@ -853,6 +853,12 @@ class RawWheelTickOutput(WheelTickInput):
     MESSAGE_TYPE = MessageType.RAW_WHEEL_TICK_OUTPUT
     MESSAGE_VERSION = 0
 
+    def unpack(self, buffer: bytes, offset: int = 0, message_version: int = MessagePayload._UNSPECIFIED_VERSION) -> int:
+        size = super().unpack(buffer, offset, message_version)
+        # Unlike the input message, an output from the device carries a valid P1 time: keep it.
+        self.details.unpack(buffer, offset)
+        return size
+
     def __str__(self):
         return super().__str__().replace('Wheel Tick Input', 'Raw Wheel Tick Output')
 
@@ -950,6 +956,12 @@ Vehicle Tick Input @ {str(self.details.p1_time)}
 class RawVehicleTickOutput(VehicleTickInput):
     MESSAGE_TYPE = MessageType.RAW_VEHICLE_TICK_OUTPUT
     MESSAGE_VERSION = 0
+
+    def unpack(self, buffer: bytes, offset: int = 0, message_version: int = MessagePayload._UNSPECIFIED_VERSION) -> int:
+        size = super().unpack(buffer, offset, message_version)
+        # Unlike the input message, an output from the device carries a valid P1 time: keep it.
+        self.details.unpack(buffer, offset)
+        return size
 
     def __str__(self):
         return super().__str__().replace('Vehicle Tick Input', 'Raw Vehicle Tick Output')
